@@ -291,11 +291,37 @@ def _stmt_line(fn, line):
     return best if best is not None else fn.node
 
 
+def check_parse_error_carries_remainder(eng, run):
+    """the protocol layer hands the serializer's remainder on unchanged: every StreamProtocolParseError built in a handler of an
+    IncrementalDeserializeError (or a subclass: LimitOverrunError) carries `<exc>.remaining_data`, and one built after the packet
+    was decoded carries the variable the decoder's remainder was bound to.  A handler that substitutes b"" (or anything else) drops
+    the bytes behind the rejected frame on this path only - the two receive paths then disagree on the next frames."""
+    n = 0
+    for fn in eng.db.all_functions():
+        if isinstance(fn.node, ast.Lambda) or not fn.module.name.startswith("easynetwork.protocol"):
+            continue
+        for t in [x for x in own_nodes(fn.node) if isinstance(x, ast.Try)]:
+            for h in t.handlers:
+                names = eng.lattice.handler_classes(fn, h.type) if h.type is not None else []
+                for r in [x for b in h.body for x in ast.walk(b) if isinstance(x, ast.Raise) and isinstance(x.exc, ast.Call) and "StreamProtocolParseError" in ast.unparse(x.exc.func)]:
+                    first = r.exc.args[0] if r.exc.args else None
+                    incremental = any(nm.split(".")[-1] in ("IncrementalDeserializeError", "LimitOverrunError") for nm in (names or []))
+                    if incremental:
+                        n += 1
+                        ok = h.name is not None and isinstance(first, ast.Attribute) and first.attr == "remaining_data" and isinstance(first.value, ast.Name) and first.value.id == h.name
+                        if not ok:
+                            run.finding("C02.keep", fn, r, f"the parse error built for `{ast.unparse(h.type)}` carries `{ast.unparse(first) if first is not None else 'nothing'}` instead of "
+                                        f"`{h.name or 'exc'}.remaining_data`: the bytes that follow the rejected frame are dropped on this receive path only")
+                        run.ob("C02.keep", f"{fn.short}:{ast.unparse(h.type)}:remainder-handed-on", ok)
+    run.floor("C02.keep protocol handlers of incremental deserialization errors", n, 2)
+
+
 def run(eng, run):
     from sa.anchors import verify as _verify_anchor_names
     _verify_anchor_names(eng, run)
     run.not_decided += NOT_DECIDED
     run.attempt(check_frames_decoded, eng, run)
+    run.attempt(check_parse_error_carries_remainder, eng, run)
     run.attempt(check_bound, eng, run)
     run.attempt(check_keep, eng, run)
     run.attempt(check_lim, eng, run)
@@ -313,6 +339,8 @@ def run(eng, run):
     run.attempt(c07.check_fixed, eng, RuleAlias(run, "C02.lim"))  # the buffered path's limit is the buffer's length: both paths must enforce the configured one
     run.attempt(c10.check_conservation, eng, run, rule="C02.bound")
     run.attempt(c10.check_raw_buffer_reads, eng, run, rule="C02.bound")
+    from rules import c05 as _c05s
+    run.attempt(_c05s.check_sep, eng, RuleAlias(run, "C02.scan"))  # a strip-family call eats payload bytes on the path that uses it only
     run.end_of_rules()
 
 
